@@ -19,8 +19,8 @@ ID = "C12"
 LEVEL = "fault_enumeration"
 RULE = (
     "case = (establishment outcome: endpoint announced as event / bare data with /messages/ or /mcp / query-only / absolute URL, HTTP 401/404/500, ConnectError, 200 with empty stream, "
-    "200 that only sends comments forever, announcement after delay d relative to the timeout) x (per-request mode: 200 body, 202 then event after delta, event then 202 after delta (the event carrying a result or an error), 202 and silence, "
-    "4xx/5xx with JSON or text body, POST raises; str and int ids) x (server-initiated notifications/requests interleaved on the event stream) x (every event's bytes re-chunked at generated offsets incl. inside "
+    "200 that only sends comments forever, announcement after delay d relative to the timeout, response headers of the event stream themselves late) x (per-request mode: 200 body, 202 then event after delta, event then 202 after delta (the event carrying a result or an error), 202 and silence, "
+    "4xx/5xx with JSON or text body, 200 with a text / empty / scalar body, POST raises an httpx error, an OSError or a RuntimeError; str and int ids) x (server-initiated notifications/requests interleaved on the event stream) x (every event's bytes re-chunked at generated offsets incl. inside "
     "UTF-8 characters and CRLF) x (exit path: normal or exception in body after the traffic or at a generated instant mid-request, outer cancellation before the first request / with a request in flight / after the response, plain cancellation of the owning task), all on a virtual clock over httpx.MockTransport; "
     "oracle: entering raises within timeout+eps or yields a connection on which a probe request gets a terminal message; exactly one response per request id (type-strict id); server messages once and in order; "
     "after exit both HTTP clients are closed, the event-stream generator is closed and no task created by the case is pending; non-trivial = establishment other than the plain endpoint event, or |delta|<=20 ms race, "
@@ -39,7 +39,7 @@ META = {
 
 BASE = "http://test.invalid"
 EST_KINDS = ["endpoint-event", "bare-messages", "bare-mcp", "query-only", "absolute-url", "status-401", "status-404", "status-500", "connect-error", "empty-stream", "comments-forever", "endpoint-crlf"]
-MODES = ["200-body", "202-then-event", "event-then-202", "202-silence", "status-400-json", "status-500-text", "post-raises", "200-body-error", "202-then-error-event", "error-event-then-202"]
+MODES = ["200-body", "202-then-event", "event-then-202", "202-silence", "status-400-json", "status-500-text", "post-raises", "200-body-error", "202-then-error-event", "error-event-then-202", "post-raises-oserror", "post-raises-runtime", "200-text-body", "200-empty-body", "200-json-scalar", "200-json-emptyobj", "200-json-nonmessage", "200-json-array", "200-json-null"]
 
 
 def endpoint_bytes(kind: str) -> Tuple[bytes, str]:
@@ -105,6 +105,8 @@ def check(case: Dict[str, Any]) -> Outcome:
         loop = asyncio.get_running_loop()
         if request.method == "GET":
             k = est["kind"]
+            if est.get("get_delay"):
+                await asyncio.sleep(est["get_delay"])  # the response headers of the event stream arrive late
             if k == "connect-error":
                 raise httpx.ConnectError("refused", request=request)
             if k.startswith("status-"):
@@ -169,6 +171,24 @@ def check(case: Dict[str, Any]) -> Outcome:
             return httpx.Response(500, text="internal <b>error</b>")
         if mode == "post-raises":
             raise httpx.ReadTimeout("read timed out", request=request)
+        if mode == "post-raises-oserror":
+            raise OSError(101, "Network is unreachable")  # from below the HTTP library
+        if mode == "post-raises-runtime":
+            raise RuntimeError("connection pool is closed")
+        if mode == "200-text-body":
+            return httpx.Response(200, text="OK")
+        if mode == "200-empty-body":
+            return httpx.Response(200, content=b"")
+        if mode == "200-json-scalar":
+            return httpx.Response(200, json=5)
+        if mode == "200-json-emptyobj":
+            return httpx.Response(200, json={})
+        if mode == "200-json-nonmessage":
+            return httpx.Response(200, json={"status": "ok", "id": rid})
+        if mode == "200-json-array":
+            return httpx.Response(200, json=[resp])
+        if mode == "200-json-null":
+            return httpx.Response(200, content=b"null", headers={"content-type": "application/json"})
         raise ValueError(mode)
 
     tasks_before: set = set()
@@ -314,8 +334,9 @@ def check(case: Dict[str, Any]) -> Outcome:
     out.classes = (f"est:{est['kind']}", f"exit:{exit_path}" + (":mid-request" if state.get("early_exit") and reqs else ""), "race" if race else "no-race", "chunked" if cuts else "unchunked") + tuple(sorted({"mode:" + r["mode"] for r in reqs}))
 
     # ------------------------------------------------------------------ establishment
-    must_raise = (not will_announce) or delay > T + 1e-9
-    may_either = will_announce and abs(delay - T) <= 1e-9
+    t_announce = delay + est.get("get_delay", 0.0)  # the announcement cannot precede the response headers
+    must_raise = (not will_announce) or t_announce > T + 1e-9
+    may_either = will_announce and abs(t_announce - T) <= 1e-9
     cancelled_during_entry = exit_path in ("cancel", "task-cancel") and (case.get("cancel_at") is not None or exit_path == "task-cancel") and not state["entered"]
     if not state["entered"]:
         if cancelled_during_entry:
@@ -392,6 +413,8 @@ def cases(draw):
     T = 2.0
     if k == "delayed":
         est["delay"] = draw(st.sampled_from([0.01, 1.0, 1.99, 2.0, 2.01, 3.0]))
+    if draw(st.integers(0, 3)) == 0:
+        est["get_delay"] = draw(st.sampled_from([0.3, 0.7, 1.5, 2.5]))
     n = draw(st.integers(0, 3))
     reqs = []
     used = set()
@@ -447,6 +470,18 @@ def job_matrix(col: Collector, seed: int, tier: str, shard: int, nshards: int) -
                         elif exit_path.endswith("@"):
                             case["exit_at"] = [0.005, 0.05, 0.31][i % 3]
                         col.record(case, check(case))
+    # late response headers on the event stream x what follows
+    for k in ("comments-forever", "empty-stream", "endpoint-event", "delayed", "status-500"):
+        for gd in (0.3, 0.7, 1.5, 2.5):
+            for d in ([0.5, 1.4, 1.8] if k == "delayed" else [0.0]):
+                i += 1
+                if i % nshards != shard:
+                    continue
+                est = {"kind": k, "get_delay": gd}
+                if k == "delayed":
+                    est["delay"] = d
+                case = {"est": est, "timeout": 2.0, "requests": [{"id": "r-1", "mode": "200-body", "delta": 0.0}], "server_msgs": [], "cuts": [], "exit": "normal", "crlf": False}
+                col.record(case, check(case))
     if shard == 0:
         col.exhaustive_parts.append("establishment kinds (incl. delays around the timeout) x 8 request modes x {str,int} id x 6 exit paths (normal / exception after the traffic or mid-request, anyio scope cancellation, plain task cancellation)")
 
